@@ -61,9 +61,60 @@ fn gen_overwritten(rng: &mut Rng) -> Vec<String> {
     ops
 }
 
+/// scenario "two origins": while the receiver holds a partially buffered version of ANOTHER actor (node 3) with
+/// the same version number and overlapping seq numbers, the target version of node 0 arrives in pieces, becomes
+/// complete, is applied and its buffered copies are cleared; the other actor's version is completed afterwards.
+/// Both must become visible whole (seeded change C03-2: the clear job's DELETE forgot the site id).
+fn gen_two_origins(rng: &mut Rng) -> Vec<String> {
+    let k = rng.range(3, 5) as usize;
+    let st: Vec<String> = (0..k).map(|j| format!("ins:t:i{}:a=t{:02x},b=i{}", 10 + j, rng.range(0x61, 0x79), rng.range(0, 9))).collect();
+    let mut ops = vec![format!("nw 0 {}", st.join(";")), "TARGET".to_string()];
+    // node 3: version 1 (one row), version 2 = the second transaction (keys 30..), same shape
+    ops.push("nw 3 ins:t:i8:a=t70,b=i1".into());
+    let k2 = rng.range(2, 5) as usize;
+    let st2: Vec<String> = (0..k2).map(|j| format!("ins:t:i{}:a=t{:02x},b=i{}", 30 + j, rng.range(0x61, 0x79), rng.range(0, 9))).collect();
+    ops.push(format!("nw 3 {}", st2.join(";")));
+    if rng.chance(1, 2) {
+        ops.push("nb 1 o:3:1:all".into());
+    }
+    ops.push("ndump 1".into());
+    // part of the other actor's version first
+    let parts2 = rng.range(2, 3);
+    let first2 = rng.below(parts2);
+    ops.push(format!("nb 1 o:3:2:p{first2}of{parts2}"));
+    ops.push("ndump 1".into());
+    // the target in pieces, any order, possibly with a duplicate
+    let n = rng.range(2, 4);
+    let mut pieces: Vec<String> = (0..n).map(|i| format!("p{i}of{n}")).collect();
+    if rng.chance(1, 3) {
+        pieces.push(pieces[0].clone());
+    }
+    rng.shuffle(&mut pieces);
+    for pc in &pieces {
+        ops.push(format!("nb 1 o:0:V:{pc}"));
+        ops.push("ndump 1".into());
+    }
+    // the rest of the other actor's version
+    for i in 0..parts2 {
+        if i != first2 {
+            ops.push(format!("nb 1 o:3:2:p{i}of{parts2}"));
+            ops.push("ndump 1".into());
+        }
+    }
+    ops.push("nb 2 o:0:V:all".into());
+    ops.push("ndump 2".into());
+    ops.push("nb 2 o:3:1:all|o:3:2:all".into());
+    ops.push("nsync 1 3 all".into());
+    ops.push("nsync 2 3 all".into());
+    ops
+}
+
 fn gen_ops(rng: &mut Rng, tier: Tier) -> Vec<String> {
     if rng.chance(1, 3) {
         return gen_overwritten(rng);
+    }
+    if rng.chance(1, 4) {
+        return gen_two_origins(rng);
     }
     let mut ops = vec![];
     // some earlier history on the origin and the receiver (conflicting rows), already exchanged or not
@@ -240,6 +291,22 @@ fn oracle(ops: &[String], outs: &[String], r: &mut CaseResult) {
             .map(|s| s.to_string())
             .collect()
     };
+    // the second transaction (scenario "two origins"): keys 30..49 are written only by version 2 of node 3
+    let second_rows: usize = ops
+        .iter()
+        .filter(|o| o.starts_with("nw 3 ") && o.contains(":i3"))
+        .map(|o| o.matches("ins:t:i3").count() + o.matches("ins:t:i4").count())
+        .sum();
+    let second_keys = |rows: &str| -> Vec<String> {
+        rows.split(';')
+            .filter(|row| {
+                let key = row.split(':').next().unwrap_or("");
+                let pk = key.split('/').nth(1).unwrap_or("");
+                pk.strip_prefix('i').and_then(|n| n.parse::<u64>().ok()).map(|n| (30..50).contains(&n)).unwrap_or(false)
+            })
+            .map(|s| s.to_string())
+            .collect()
+    };
     let mut covered = vec![false; (last + 1) as usize];
     let mut chunks_before_visible = 0;
     let mut visible = false;
@@ -273,6 +340,15 @@ fn oracle(ops: &[String], outs: &[String], r: &mut CaseResult) {
                 }
             }
             ["ndump", "1"] => {
+                let sk = second_keys(&rows_of(out));
+                if second_rows > 0 && !sk.is_empty() && sk.len() != second_rows {
+                    r.oracle_failures.push(format!(
+                        "a transaction of another actor is visible in part ({} of {} rows): {}",
+                        sk.len(),
+                        second_rows,
+                        sk.join(";")
+                    ));
+                }
                 let keys = target_keys(&rows_of(out));
                 let all_cov = covered.iter().all(|c| *c);
                 if !all_cov && !synced {
@@ -331,6 +407,12 @@ fn oracle(ops: &[String], outs: &[String], r: &mut CaseResult) {
         if a != b {
             r.oracle_failures.push(format!(
                 "after lossless sync with the origin the receiver of the chunked transaction and the reference node disagree on its rows: {a:?} vs {b:?}"
+            ));
+        }
+        let (a2, b2) = (second_keys(&rows_of(d1)), second_keys(&rows_of(d2)));
+        if a2 != b2 {
+            r.oracle_failures.push(format!(
+                "after lossless sync the receiver and the reference node disagree on the rows of the other actor's transaction: {a2:?} vs {b2:?}"
             ));
         }
         if !book_clean(d1) {
